@@ -15,7 +15,7 @@ CHECKS = {
    technique="TLA+ router + timed deadline models checked with TLC; timed trace validation of the real TCP/UDP matching phase"),
  "C09": dict(level="model_checking", design="5 C09, 4.3",
    text="TLC checks NoCrash/NoStaleDelete/OwnClientOnly/InOrder on the code-shaped model of servePacket<->packetConn (all interleavings of 2 clients, 5 datagrams, 4 associations, scaled channel capacities) and, as a vacuity self-test, that the same invariants fail on the pinned-commit protocol. The real loop runs behind a scripted PacketConn in a child process for a TLC-enumerated grid of bursts (clients x datagrams x handler read counts x sizes x reader buffer sizes x pacing); a panic is a violation; recorded histories are validated by TLC against clauses U0-U4 of L4UdpAbs; a gate-scheduled close race (hooks) and a brute-force stress of concurrent Close calls on one virtual connection complete the runs.",
-   note="one interleaving is forced through gates, the others are free-running; the 30 s idle expiry path is covered by the model only; event order is recording order under one lock",
+   note="one interleaving is forced through gates, the others are free-running; the 30 s idle expiry path runs on the real code in the thorough tier only (clauses U4/U5); event order is recording order under one lock",
    technique="TLA+ model of the UDP demultiplexing goroutines checked with TLC; trace validation of the real servePacket loop"),
 
  "C13": dict(level="model_checking", design="5 C13, 4.4",
